@@ -1310,6 +1310,45 @@ func intrContains(e *Exec, st *State, fr *Frame, args []Val, in ssa.Instruction,
 }
 
 func intrSplitN(e *Exec, st *State, fr *Frame, args []Val, in ssa.Instruction, rt types.Type) []callRes {
+	// SplitN(s, sep, 2) with a constant one-byte separator, exact: either sep does not occur (one part, s),
+	// or the parts are what precedes and what follows its first occurrence.
+	if s, ok := args[0].(*StringVal); ok {
+		if sep, ok := args[1].(*StringVal); ok {
+			if lit, isC := concreteString(sep); isC && len(lit) == 1 {
+				if nn, ok := args[2].(*Term); ok && nn.IsConst() && nn.SInt().Int64() == 2 {
+					c := e.C
+					elem := rt.Underlying().(*types.Slice).Elem()
+					sepT := c.NumConst(big.NewInt(int64(lit[0])), e.elemSort(types.Typ[types.Uint8]))
+					mk := func(st *State, parts []Val) Val {
+						n := e.idx(int64(len(parts)))
+						id := e.newObj(st, &ArrayVal{ElemT: elem, Len: n, List: parts}, &ObjMeta{T: types.NewArray(elem, int64(len(parts))), Fresh: true})
+						return &SliceVal{Obj: id, Off: e.idx(0), Len: n, Cap: n, Nil: c.False(), ElemT: elem}
+					}
+					// outcome 1: no separator
+					st1 := st.clone()
+					k1 := c.Var(c.FreshName("k"), e.idxSort())
+					st1.assume(c.Forall([]*Term{k1}, c.Implies(e.inRange(k1, s.Len), c.Not(c.Eq(e.sel(s.C, c.Add(s.Off, k1)), sepT)))))
+					// outcome 2: first separator at idx
+					st2 := st.clone()
+					idx := c.Fresh("splitn.idx", e.idxSort())
+					st2.assume(c.And(e.nonNeg(idx), e.ltIdx(idx, s.Len)))
+					st2.assume(c.Eq(e.sel(s.C, c.Add(s.Off, idx)), sepT))
+					k2 := c.Var(c.FreshName("k"), e.idxSort())
+					st2.assume(c.Forall([]*Term{k2}, c.Implies(e.inRange(k2, idx), c.Not(c.Eq(e.sel(s.C, c.Add(s.Off, k2)), sepT)))))
+					p0 := &StringVal{C: s.C, Off: s.Off, Len: idx}
+					p1 := &StringVal{C: s.C, Off: c.Add(c.Add(s.Off, idx), e.idx(1)), Len: c.Sub(c.Sub(s.Len, idx), e.idx(1))}
+					var out []callRes
+					if !st1.Dead {
+						out = append(out, callRes{st1, mk(st1, []Val{s})})
+					}
+					if !st2.Dead {
+						out = append(out, callRes{st2, mk(st2, []Val{p0, p1})})
+					}
+					return out
+				}
+			}
+		}
+	}
 	_, _, sl := e.seqOfVal(st, args[0])
 	elem := rt.Underlying().(*types.Slice).Elem()
 	n := args[2].(*Term)
@@ -1327,6 +1366,71 @@ func intrFields(e *Exec, st *State, fr *Frame, args []Val, in ssa.Instruction, r
 	elem := rt.Underlying().(*types.Slice).Elem()
 	r := e.splitResult(st, elem, "fields", 0, sl, sl)
 	return []callRes{{st, r}}
+}
+
+// trimSide: TrimLeft / TrimRight with a constant cutset, exact: the result is the window that remains after
+// removing the maximal run of cutset bytes at that end (bytes; a cutset with non-ASCII runes is not modelled).
+func (e *Exec) trimSide(st *State, sc ArrC, off, n *Term, cutset string, left bool) (*Term, *Term) {
+	c := e.C
+	inSet := func(b *Term) *Term {
+		r := c.False()
+		for i := 0; i < len(cutset); i++ {
+			r = c.Or(r, c.Eq(b, c.NumConst(big.NewInt(int64(cutset[i])), b.S)))
+		}
+		return r
+	}
+	cut := c.Fresh("trimcut", e.idxSort()) // number of bytes removed
+	st.assume(c.And(e.nonNeg(cut), e.leIdx(cut, n)))
+	k := c.Var(c.FreshName("k"), e.idxSort())
+	if left {
+		// bytes [0,cut) are in the set; byte cut (if any) is not
+		st.assume(c.Forall([]*Term{k}, c.Implies(e.inRange(k, cut), inSet(e.sel(sc, c.Add(off, k))))))
+		st.assume(c.Or(c.Eq(cut, n), c.Not(inSet(e.sel(sc, c.Add(off, cut))))))
+		return c.Add(off, cut), c.Sub(n, cut)
+	}
+	// bytes [n-cut,n) are in the set; byte n-cut-1 (if any) is not
+	st.assume(c.Forall([]*Term{k}, c.Implies(e.inRange(k, cut), inSet(e.sel(sc, c.Add(off, c.Sub(c.Sub(n, e.idx(1)), k)))))))
+	st.assume(c.Or(c.Eq(cut, n), c.Not(inSet(e.sel(sc, c.Add(off, c.Sub(c.Sub(n, e.idx(1)), cut)))))))
+	return off, c.Sub(n, cut)
+}
+
+func asciiOnly(s string) bool {
+	for i := 0; i < len(s); i++ {
+		if s[i] >= 0x80 {
+			return false
+		}
+	}
+	return true
+}
+
+func intrTrimSide(left bool) func(e *Exec, st *State, fr *Frame, args []Val, in ssa.Instruction, rt types.Type) []callRes {
+	return func(e *Exec, st *State, fr *Frame, args []Val, in ssa.Instruction, rt types.Type) []callRes {
+		cs, ok := args[1].(*StringVal)
+		if ok {
+			if cutset, isC := concreteString(cs); isC && asciiOnly(cutset) {
+				switch s := args[0].(type) {
+				case *StringVal:
+					if str, isC := concreteString(s); isC {
+						if left {
+							return []callRes{{st, e.strConst(strings.TrimLeft(str, cutset))}}
+						}
+						return []callRes{{st, e.strConst(strings.TrimRight(str, cutset))}}
+					}
+					off, n := e.trimSide(st, s.C, s.Off, s.Len, cutset, left)
+					return []callRes{{st, &StringVal{C: s.C, Off: off, Len: n}}}
+				case *SliceVal:
+					if s.Obj != 0 {
+						av := e.sliceBacking(st, s)
+						if av.Scalar {
+							off, n := e.trimSide(st, av.C, s.Off, s.Len, cutset, left)
+							return []callRes{{st, &SliceVal{Obj: s.Obj, Path: s.Path, Off: off, Len: n, Cap: e.C.Sub(s.Cap, e.C.Sub(off, s.Off)), Nil: s.Nil, ElemT: s.ElemT}}}
+						}
+					}
+				}
+			}
+		}
+		return intrTrimWindow(e, st, fr, args, in, rt)
+	}
 }
 
 // Trim family: the result is a sub-window of the input.
@@ -1364,9 +1468,13 @@ func init() {
 	intrinsics["bytes.Split"] = intrSplit
 	intrinsics["strings.SplitN"] = intrSplitN
 	intrinsics["strings.Fields"] = intrFields
-	for _, n := range []string{"strings.TrimRight", "strings.TrimLeft", "strings.Trim", "bytes.TrimRight", "bytes.TrimLeft", "bytes.Trim", "bytes.TrimSpace"} {
+	for _, n := range []string{"strings.Trim", "bytes.Trim", "bytes.TrimSpace"} {
 		intrinsics[n] = intrTrimWindow
 	}
+	intrinsics["strings.TrimRight"] = intrTrimSide(false)
+	intrinsics["bytes.TrimRight"] = intrTrimSide(false)
+	intrinsics["strings.TrimLeft"] = intrTrimSide(true)
+	intrinsics["bytes.TrimLeft"] = intrTrimSide(true)
 	for _, n := range []string{"strings.Index", "strings.LastIndex", "strings.IndexByte", "bytes.Index", "bytes.IndexByte", "strings.IndexRune", "strings.IndexAny"} {
 		intrinsics[n] = intrIndexOf
 	}
